@@ -5,6 +5,7 @@ Imports nothing outside core Lean and the Mathlib-free Model/Spec/Gen/IO modules
 -/
 import Lean.Data.Json
 import SqlLineage.IO.Config
+import SqlLineage.IO.Provider
 
 open Lean
 
@@ -13,7 +14,9 @@ def handlers : List (String × (Json → Except String Json)) := [
   ("cfgmicro", SqlLineage.IO.Config.handleMicro),
   ("cfgexpand", SqlLineage.IO.Config.handleExpand),
   ("cfgparse", SqlLineage.IO.Config.handleParse),
-  ("cfgtable", SqlLineage.IO.Config.handleTable)
+  ("cfgtable", SqlLineage.IO.Config.handleTable),
+  ("provhist", SqlLineage.IO.Provider.handleHist),
+  ("provthreads", SqlLineage.IO.Provider.handleThreads)
 ]
 
 def handleLine (line : String) : String :=
